@@ -375,6 +375,115 @@ def Comp.grad (C : Comp α) (n : Nat) (y : Nat → Nat → Nat → α) (s r j : 
   | none => compGradFrom n C.filters 0 y s r j
   | some ord => compGradFrom n C.filters 0 (C.presort y) s r (ord.getD j 0)
 
+/-! ## nested compositions: a sub-filter of a `ComposedPopulationFilter` may itself be composed
+
+Every composed filter keeps its OWN deferred time order and applies it to the block of simulated values it
+is handed (`compute_log_likelihood` / `compute_sensitivities` are called on the sub-filter object). -/
+
+inductive FTree (α : Type) where
+  | leaf (F : Filt α)
+  | node (children : List (FTree α)) (timeOrder : Option (List Nat))
+
+/-- `simulated_obs[:, :, self._time_filter_order]` for the order kept by one composed filter -/
+def presortOrd (ord : Option (List Nat)) (y : Nat → Nat → Nat → α) : Nat → Nat → Nat → α :=
+  match ord with
+  | none => y
+  | some o =>
+    let inv := argsortNat o      -- `_time_filter_order`, computed once
+    fun s r k => y s r (inv.getD k 0)
+
+mutual
+/-- `n_times()` -/
+def FTree.T : FTree α → Nat
+  | .leaf F => F.T
+  | .node cs _ => FTree.sumT cs
+def FTree.sumT : List (FTree α) → Nat
+  | [] => 0
+  | c :: cs => c.T + FTree.sumT cs
+end
+
+mutual
+def FTree.R : FTree α → Nat
+  | .leaf F => F.R
+  | .node cs _ => FTree.headR cs
+def FTree.headR : List (FTree α) → Nat
+  | [] => 0
+  | c :: _ => c.R
+end
+
+mutual
+def FTree.val (n : Nat) : FTree α → (Nat → Nat → Nat → α) → α
+  | .leaf F, y => F.val n y
+  | .node cs ord, y => FTree.valFrom n cs 0 (presortOrd ord y)
+def FTree.valFrom (n : Nat) : List (FTree α) → Nat → (Nat → Nat → Nat → α) → α
+  | [], _, _ => ofNat 0
+  | c :: cs, off, y => c.val n (shiftT y off) + FTree.valFrom n cs (off + c.T) y
+end
+
+mutual
+def FTree.ll (n : Nat) : FTree α → (Nat → Nat → Nat → α) → Except PErr (Score α)
+  | .leaf F, y => F.ll n y
+  | .node cs ord, y => FTree.llFrom n cs 0 (presortOrd ord y)
+def FTree.llFrom (n : Nat) : List (FTree α) → Nat → (Nat → Nat → Nat → α) → Except PErr (Score α)
+  | [], _, _ => .ok Score.zero
+  | c :: cs, off, y =>
+    match c.ll n (shiftT y off) with
+    | .error e => .error e
+    | .ok s => match FTree.llFrom n cs (off + c.T) y with
+      | .error e => .error e
+      | .ok t => .ok (Score.add s t)
+end
+
+mutual
+/-- `compute_sensitivities(...)[1][s, r, j]` in the order of the node's input -/
+def FTree.grad (n : Nat) : FTree α → (Nat → Nat → Nat → α) → Nat → Nat → Nat → α
+  | .leaf F, y, s, r, j => F.grad n y s r j
+  | .node cs none, y, s, r, j => FTree.gradFrom n cs 0 y s r j
+  | .node cs (some o), y, s, r, j => FTree.gradFrom n cs 0 (presortOrd (some o) y) s r (o.getD j 0)
+def FTree.gradFrom (n : Nat) : List (FTree α) → Nat → (Nat → Nat → Nat → α) → Nat → Nat → Nat → α
+  | [], _, _, _, _, _ => ofNat 0
+  | c :: cs, off, y, s, r, k =>
+    if k < off + c.T then c.grad n (shiftT y off) s r (k - off)
+    else FTree.gradFrom n cs (off + c.T) y s r k
+end
+
+mutual
+/-- the simple filters of a nested composition, left to right -/
+def FTree.leaves : FTree α → List (Filt α)
+  | .leaf F => [F]
+  | .node cs _ => FTree.leavesL cs
+def FTree.leavesL : List (FTree α) → List (Filt α)
+  | [] => []
+  | c :: cs => c.leaves ++ FTree.leavesL cs
+end
+
+mutual
+/-- the index map of a nested composition: the column of the node's INPUT that holds the simulated values
+    of the `k`-th time point in the order of the leaves -/
+def FTree.col : FTree α → Nat → Nat
+  | .leaf _, k => k
+  | .node cs none, k => FTree.colL cs 0 k
+  | .node cs (some o), k => (argsortNat o).getD (FTree.colL cs 0 k) 0
+def FTree.colL : List (FTree α) → Nat → Nat → Nat
+  | [], _, k => k
+  | c :: cs, off, k => if k < off + c.T then off + c.col (k - off) else FTree.colL cs (off + c.T) k
+end
+
+mutual
+/-- every order that was accepted by a `sort_times` call is a permutation of the node's time points -/
+def FTree.WF : FTree α → Prop
+  | .leaf _ => True
+  | .node cs none => FTree.WFL cs
+  | .node cs (some o) => FTree.WFL cs ∧ o.Perm (List.range (FTree.sumT cs))
+def FTree.WFL : List (FTree α) → Prop
+  | [] => True
+  | c :: cs => c.WF ∧ FTree.WFL cs
+end
+
+/-- NOT chi: a constructor that replaces every composed sub-filter by that filter's own sub-filters —
+    the deferred time orders of the inner filters are lost -/
+def FTree.flattenDroppingOrders (t : FTree α) : Comp α := ⟨t.leaves, none⟩
+
 /-! ## S: the documented densities, written from the class docstrings (executable spec) -/
 
 /-- `N(x | mu, var)` -/
